@@ -151,18 +151,29 @@ class Pkt(object):
     packed = b"\x01\x02"
 
 
-def mk(kind):
+# phases of a client connection: (accepted, connected).  "pending" = the window after connect_ex() returned
+# EINPROGRESS (socket present, connect not completed: where a refused / unreachable / timed out connect is
+# reported by the next recv / send); "handshaking" (TLS only) = tcp connect done, TLS handshake not yet
+PHASES = collections.OrderedDict([("connected", (True, True)), ("pending", (False, False)),
+                                  ("handshaking", (True, False))])
+CLIENT_PHASES = {"Client": ("pending",), "ClientTls": ("pending", "handshaking")}
+
+
+def mk(kind, phase="connected"):
     from ioflo.aio.tcp import clienting, serving
     s = Sock()
+    acc, con = PHASES[phase]
     if kind == "Client":
         o = clienting.Client(ha=HA)
         o.cs = s
-        o.connected = True
+        o.opened = True
+        o.accepted = acc     # plain tcp: .connected is .accepted
     elif kind == "ClientTls":
         o = clienting.ClientTls(ha=HA, context=Ctx())
         o.cs = s
-        o.accepted = True
-        o.connected = True
+        o.opened = True
+        o.accepted = acc
+        o.connected = con
     elif kind == "Incomer":
         o = serving.Incomer(ha=HA, ca=CA, cs=s, bs=1024)
     else:
@@ -170,9 +181,11 @@ def mk(kind):
     return o, s
 
 
-def drive_stream(kind, meth):
+def drive_stream(kind, meth, phase="connected"):
     def f(ex):
-        o, s = mk(kind)
+        o, s = mk(kind, phase)
+        if bool(getattr(o, "connected", True)) != PHASES[phase][1] or o.cutoff:
+            return "Other:harness could not set up phase %s" % phase
         s.exc = ex
         o.tx(b"queued")
         o.rxbs.extend(b"buffered")
@@ -315,6 +328,13 @@ for _k in ("ClientTls", "IncomerTls"):
     DRIVERS["%s.handshake#0" % _k] = drive_handshake(_k)
 for _k in ("Client", "Incomer"):
     DRIVERS["%s.shutdown#0" % _k] = drive_shutdown(_k, "shutdown")
+# the same recv / send entry points of the clients in the not-yet-connected phases: implementation only, the
+# property's statement (expected) and the state independence of the extracted tables are evaluated on them
+PHASE_DRIVERS = collections.OrderedDict()
+for _k in ("Client", "ClientTls"):
+    for _m in ("receive", "send"):
+        for _p in CLIENT_PHASES[_k]:
+            PHASE_DRIVERS[("%s.%s#0" % (_k, _m), _p)] = drive_stream(_k, _m, _p)
 DRIVERS["Acceptor.accept#0"] = drive_accept
 DRIVERS["Acceptor.close#0"] = drive_acceptor_close
 DRIVERS["Client.accept#0"] = drive_connect
@@ -662,6 +682,25 @@ def run(ctx):
                 continue
             rows.append((label, c_err(ex), got))
         per_site[site] = rows
+    # ---- client recv / send in the connect-pending (and TLS handshake-pending) phase, every error of the universe:
+    # implementation only, on every run (also when the translator failed); the handler tables carry no connection
+    # state, so the outcome must be the one observed (and compared with classify) on the connected client
+    connected_outcome = dict(((s, l), g) for s, l, g, w in observed)
+    pobserved = []
+    for (site, phase), drv in PHASE_DRIVERS.items():
+        for label, mkex in uni:
+            ex = mkex()
+            got = drv(ex)
+            want = expected(site, ex)
+            pobserved.append((site, phase, label, got, want))
+            ctx.case({"site": site, "phase": phase, "error": label, "outcome": got},
+                     nontrivial=want in ("Cutoff", "Quiet"), kind="%s/%s" % (site.split("#")[0], phase))
+            ref = connected_outcome.get((site, label))
+            if got.startswith("Other") or (ref is not None and not ref.startswith("Other") and got != ref):
+                ctx.tie_broken("correspondence", "%s [%s]" % (site, phase),
+                               "error %s: outcome %s on a client in phase %s, %s when connected (the extracted "
+                               "table does not depend on the connection state)" % (label, got, phase, ref))
+    ctx.extra["phase_sites_driven"] = ["%s [%s]" % k for k in PHASE_DRIVERS]
     ctx.extra["sites_skipped"] = ["%s (%s:%d): %s" % x for x in translate.skipped_log]
     ctx.extra["sites_extracted"] = names
     ctx.extra["sites_driven"] = list(DRIVERS)
@@ -760,6 +799,20 @@ def run(ctx):
                          "contradicts": "C25.Props.gram_transient_error_never_loses_a_packet"}
         fails = [(s, l, g, w) for s, l, g, w in observed
                  if w is not None and (g not in w if isinstance(w, tuple) else g != w)]
+        pfails = [(s, p, l, g, w) for s, p, l, g, w in pobserved if w is not None and g != w
+                  and (s, l, g, w) not in fails]   # a failure that only shows before the connect completed
+        if pfails and not [f for f in fails if "Tls" not in f[0] and not f[0].startswith("GramStack")]:
+            pfails.sort(key=lambda f: ("Tls" in f[0], f[2] != "OSError(ECONNREFUSED)"))
+            s, p, l, g, w = pfails[0]
+            acc, con = PHASES[p]
+            return {"key": "error-classification-before-connected", "site": s, "class": s.split(".")[0],
+                    "method": s.split("#")[0].split(".")[1], "phase": p,
+                    "client_state": {"cs": "socket double", "opened": True, "accepted": acc, "connected": con,
+                                     "cutoff": False, "txes": ["queued"], "rxbs": "buffered"},
+                    "error_raised": l + " from the socket double's recv/send", "observed": g, "expected": w,
+                    "all_failing": ["%s [%s] <- %s: %s (expected %s)" % f for f in pfails][:40],
+                    "contradicts": "C25.Props.loss_set_cuts_off / wouldblock_quiet / others_raise (tables carry no "
+                                   "connection state)"}
         if not fails:
             return cfail or gfail
         tls = [f for f in fails if "Tls" in f[0]]
